@@ -277,6 +277,31 @@ impl<const N: usize> Subscriptions<N> {
         self.notification.notify();
     }
 
+    /// Verification hook: `(subscription id, fabric index, peer node id, min interval)` of every
+    /// subscription in the table (including the one being reported on, if any).
+    #[cfg(rs_matter_verif)]
+    pub fn verif_snapshot(&self) -> std::vec::Vec<(u32, u8, u64, u16)> {
+        self.state.lock(|state| {
+            let state = state.borrow();
+
+            let reporting = state
+                .reporting
+                .as_ref()
+                .filter(|_| state.reporting_cancelled.is_none());
+
+            Iterator::chain(state.subscriptions.iter(), reporting)
+                .map(|sub| {
+                    (
+                        sub.ids.id,
+                        sub.ids.fab_idx.get(),
+                        sub.ids.peer_node_id,
+                        sub.min_int_secs,
+                    )
+                })
+                .collect()
+        })
+    }
+
     /// Clear all subscriptions and pending changes.
     /// Used when initializing a new data model.
     pub(crate) fn clear(&self) {
